@@ -152,7 +152,7 @@ func Harness_C08_getEntries() {
 			bad = vChoice("misindexed-position", n)
 		}
 		for i := 0; i < n; i++ {
-			ll, el := 1, 1 // lengths vary on the first leaf only (keeps the number of shapes small)
+			ll, el := 1, vChoice("later-extra-len", 2) // later leaves: extra_data empty or one byte (an entry without extra_data after one with)
 			if i == 0 {
 				ll, el = 1+vChoice("leaf-len", 2), vChoice("extra-len", 3)
 			}
